@@ -13,3 +13,8 @@ def _pending(pid):
     return dict(property_id=pid, reason='check not built yet in this session (work in progress; see DESIGN.md section 9)')
 
 NOT_APPLICABLE = []
+
+TEXT['C12'] = dict(
+   technique='Coq proof (decode = RFC grammar parser as an iff, decode∘assemble = id, typed accessors, panic freedom) + differential correspondence run',
+   level='Theorems in coq/Properties/C12.v hold for every message and every byte string of any length: decode succeeds exactly when an independent offset-table/grammar reading exists and returns that reading; decode(assemble m) = m on the stated domain; each typed option value comes from the last option of its code and only from a payload of exactly the required length. The model is tied to lib/dhcpmsg by running both on the same inputs each run (round trips, exhaustive short option areas over a structural alphabet, truncations, all hlen values, typed payload lengths).',
+   note='Trusted: Coq kernel, extraction, driver, harness, hand-written model of lib/dhcpmsg. Option payloads are values in the model; aliasing of the receive buffer is treated under C09.')
